@@ -12,9 +12,14 @@ EXPLANATION = (
     'with R = [[cos, −sin], [sin, cos]] — an isometry fixing the pivot (|Rv|²−|v|² normalises to 0 modulo cos²+sin²=1); '
     '(R2) every concrete pixel class rotates each PixCoord-valued field about the *caller\'s* pivot by the caller\'s angle, adds '
     'the angle to its own angle field, rotates component regions recursively, keeps every other field, class and a copy of '
-    'meta/visual, all through Region.copy (the original is untouched, with C13.R1); (R3) translation invariance of the mask '
-    'construction is C02.R2 (grid extents relative to the centre/integer box) and C04.R1 (extents = centre ± f(sizes, angle)). '
-    'Not decided: numerical area equality for polygons; exactness of integer translations in floating point.')
+    'meta/visual, all through Region.copy (the original is untouched, with C13.R1); (R3) translating a region by integer (Nx, Ny) '
+    '— substituted symbolically into the evaluated bounding_box and to_mask — moves each of the four integer box fields by exactly '
+    'N (floor/ceil/min/max commute with integer shifts) and leaves every argument handed to the circular/elliptical/rectangular '
+    'mask kernels unchanged; the polygon kernel is absolute: its extents and vertex arrays move together and the even-odd crossing '
+    'test (the form C01.R2 pins) is translation covariant; (R4) the area of every pixel class is a term in the size parameters only '
+    '(no centre, angle, vertices, start, end), and the polygon area is |shoelace|/2 for n = 3, 4, 5 symbolic vertices and invariant '
+    'under R1\'s rotation about any pivot. Not decided: exactness of integer translations in floating point; polygons beyond n = 5 '
+    '(the code is uniform in n).')
 TRUSTED = ['np.matmul of a 2x2 matrix and a 2-vector', 'np.cos/np.sin', 'copy.deepcopy yields an equal independent value']
 ASSUMPTIONS = ['real arithmetic']
 
@@ -109,7 +114,183 @@ def r2(ctx):
     ctx.need(n >= 12, 'pixel classes', f'only {n}')
 
 
+# ---------------------------------------------------------------- translations
+BOXED = ('CirclePixelRegion', 'EllipsePixelRegion', 'RectanglePixelRegion', 'PolygonPixelRegion',
+         'LinePixelRegion', 'PointPixelRegion')
+NX, NY = sp.Symbol('Nx', integer=True), sp.Symbol('Ny', integer=True)
+
+
+def _pull_int(e):
+    """arr_min(v + n) -> arr_min(v) + n (same for arr_max) for integer symbols n: the extreme of a
+    translated array is the translated extreme."""
+    def fix(fn):
+        def rw(arg):
+            ints = [t for t in sp.Add.make_args(arg) if t in (NX, NY)]
+            rest = arg - sum(ints, sp.Integer(0))
+            return fn(rest) + sum(ints, sp.Integer(0))
+        return rw
+    for nm in ('arr_min', 'arr_max'):
+        f = sp.Function(nm)
+        e = e.replace(f, fix(f))
+
+    def common(fn):
+        def rw(*args):
+            out = sp.Integer(0)
+            for n_ in (NX, NY):
+                if all(n_ in sp.Add.make_args(sp.expand(a)) for a in args):
+                    out += n_
+            return fn(*[sp.expand(a) - out for a in args]) + out
+        return rw
+    e = e.replace(sp.Min, common(sp.Min)).replace(sp.Max, common(sp.Max))
+    return e
+
+
+def _shift_map(cname):
+    S = sym
+    if cname == 'PolygonPixelRegion':
+        return {S('self.vertices.x'): S('self.vertices.x') + NX, S('self.vertices.y'): S('self.vertices.y') + NY}
+    if cname == 'LinePixelRegion':
+        return {S('self.start.x'): S('self.start.x') + NX, S('self.end.x'): S('self.end.x') + NX,
+                S('self.start.y'): S('self.start.y') + NY, S('self.end.y'): S('self.end.y') + NY}
+    return {S('self.center.x'): S('self.center.x') + NX, S('self.center.y'): S('self.center.y') + NY}
+
+
+def _shifted(e, mp):
+    return _pull_int(e.subs(mp, simultaneous=True))
+
+
+def r3(ctx):
+    """bounding box follows an integer translation; the mask kernel's inputs do not see it."""
+    from .c02 import _grid_args
+    from .c04 import _bbox
+    for cname in BOXED:
+        ci, f, box = _bbox(ctx, cname)
+        construct = f'{cname}.bounding_box'
+        ctx.need(isinstance(box, Obj) and box.cls == 'RegionBoundingBox', construct, 'no box value')
+        mp = _shift_map(cname)
+        bad = None
+        for fld, n_ in (('ixmin', NX), ('ixmax', NX), ('iymin', NY), ('iymax', NY)):
+            v = box.fields.get(fld)
+            ctx.need(v is not None and is_num(v) and not contains_unknown(v), construct, f'{fld} not understood')
+            d = sp.simplify(_shifted(v, mp) - v - n_)
+            if d != 0:
+                bad = (fld, v, d)
+                break
+        if bad:
+            ctx.bad(construct, 'translation',
+                    f'{bad[0]} = {show(bad[1], 160)} does not move by N when the region is translated by N whole pixels '
+                    f'(residual {bad[2]})', f.loc())
+        else:
+            ctx.ok(construct, 'box(region + N) = box(region) + N for integer N')
+    for cname in ('CirclePixelRegion', 'EllipsePixelRegion', 'RectanglePixelRegion', 'PolygonPixelRegion'):
+        ci, f, s, t, ev, a = _grid_args(ctx, cname)
+        construct = f'{cname}.to_mask'
+        mp = _shift_map(cname)
+        names = ['xmin', 'xmax', 'ymin', 'ymax', 'nx', 'ny']
+        shift = [0, 0, 0, 0, 0, 0] if cname != 'PolygonPixelRegion' else [NX, NX, NY, NY, 0, 0]
+        bad = None
+        for nm, g, sh in zip(names, a[:6], shift):
+            ctx.need(is_num(g) and not contains_unknown(g), construct, f'kernel argument {nm} not understood')
+            d = sp.simplify(_shifted(g, mp) - g - sh)
+            if d != 0:
+                bad = (nm, g, d)
+                break
+        # the remaining (size/angle/sampling) arguments must not mention the position at all
+        for k, g in enumerate(a[6:]):
+            if cname == 'PolygonPixelRegion' and k < 2:
+                continue          # the vertex arrays themselves: absolute, shifted with the extents (below)
+            if is_num(g) and (g.free_symbols & set(mp)):
+                bad = (f'arg{6 + k}', g, 'mentions the position')
+        if bad:
+            ctx.bad(construct, 'translation',
+                    f'kernel argument {bad[0]} = {show(bad[1], 160)} changes under a whole-pixel translation of the region '
+                    f'({bad[2]}): the mask array would depend on where the region sits', f.loc())
+            continue
+        if cname == 'PolygonPixelRegion':
+            # absolute kernel: extents and vertices both move by N; the even-odd crossing test is translation covariant
+            x, y, vxi, vxj, vyi, vyj = (sp.Symbol(n_) for n_ in ('x', 'y', 'vxi', 'vxj', 'vyi', 'vyj'))
+            cross = x - ((vxj - vxi) * (y - vyi) / (vyj - vyi) + vxi)
+            mv = {x: x + NX, vxi: vxi + NX, vxj: vxj + NX, y: y + NY, vyi: vyi + NY, vyj: vyj + NY}
+            ok = sp.simplify(cross.subs(mv, simultaneous=True) - cross) == 0 and \
+                sp.simplify((y - vyi).subs(mv, simultaneous=True) - (y - vyi)) == 0
+            ctx.need(ok, construct, 'crossing predicate not translation covariant (oracle)')
+            ctx.ok(construct, 'extents and vertices move together; crossing test (C01.R2 form) is translation covariant')
+        else:
+            ctx.ok(construct, 'every kernel input is invariant under a whole-pixel translation')
+
+
+def r4(ctx):
+    """area is a function of the size parameters only (circle, ellipse, rectangle, annuli) or the shoelace
+    form (polygon): rotation, which changes centre/angle/vertices only (R2), keeps it."""
+    m = ctx.model
+    rot = {'center', 'angle', 'vertices', 'start', 'end'}
+    for ci in m.region_classes('pixel'):
+        f = m.method(ci, 'area')
+        construct = f'{ci.name}.area'
+        if f is None:
+            ctx.bad(construct, 'missing', 'no area', ci.path)
+            continue
+        if ci.name == 'PolygonPixelRegion' or m.is_subclass(ci, 'PolygonPixelRegion'):
+            _polygon_area(ctx, ci, f)
+            continue
+        ev = evaluator(ctx)
+        s = ev.symbolic_instance(ci)
+        try:
+            v = ev.call(f, [s], {})
+        except Exception as exc:  # abstract / NotImplementedError
+            v = None
+        if v is None or (isinstance(v, Const) and v.v is None):
+            ctx.ok(construct, 'no area defined (raises NotImplementedError)')
+            continue
+        ctx.need(contains_unknown(v) is None, construct, 'area value not understood')
+        txt = show(v, 2000)
+        hit = [p for p in rot if f'self.{p}' in txt or f'.{p}' in txt.replace('self.', '.')]
+        if hit:
+            ctx.bad(construct, 'depends-on-pose', f'area {show(v, 200)} depends on {hit}: not invariant under rotation',
+                    f.loc())
+        else:
+            ctx.ok(construct, f'area = {show(v, 80)}: no dependence on position or orientation')
+
+
+def _polygon_area(ctx, ci, f):
+    """shoelace: for n = 3, 4, 5 symbolic vertices the area term equals 1/2 |sum x_i y_{i+1} - x_{i+1} y_i| and is
+    unchanged by R1's rotation about any pivot."""
+    m = ctx.model
+    pc = m.cls('PixCoord')
+    construct = f'{ci.name}.area'
+    for n in (3, 4, 5):
+        ev = evaluator(ctx)
+        xs = [sym(f'x{i}') for i in range(n)]
+        ys = [sym(f'y{i}') for i in range(n)]
+        v = Obj('PixCoord', {'x': Tup(tuple(xs), 'array'), 'y': Tup(tuple(ys), 'array')}, None, pc)
+        s = Obj(ci.name, {'vertices': v}, 'self', ci)
+        a = ev.call(f, [s], {})
+        ctx.need(is_num(a) and contains_unknown(a) is None, construct, f'area value not understood: {show(a, 200)}')
+        shoelace = sum(xs[i] * ys[(i + 1) % n] - xs[(i + 1) % n] * ys[i] for i in range(n)) / 2
+        inner = a.args[0] if isinstance(a, sp.Abs) else None
+        coef = sp.Integer(1)
+        if inner is None and isinstance(a, sp.Mul):
+            abss = [t for t in a.args if isinstance(t, sp.Abs)]
+            if len(abss) == 1:
+                inner = abss[0].args[0]
+                coef = a / abss[0]
+        if inner is None or not (sp.expand(coef * inner - shoelace) == 0 or sp.expand(coef * inner + shoelace) == 0):
+            ctx.bad(construct, 'shoelace', f'area for {n} vertices is {show(a, 200)}, not |shoelace|/2', f.loc())
+            return
+        cx, cy, th = sym('c.x'), sym('c.y'), sym('a')
+        mv = {}
+        for i in range(n):
+            rx, ry = rotate_oracle(xs[i], ys[i], cx, cy, th)
+            mv[xs[i]], mv[ys[i]] = rx, ry
+        if not num_equal((coef * inner).subs(mv, simultaneous=True), coef * inner):
+            ctx.bad(construct, 'rotation', f'signed area for {n} vertices changes under rotation', f.loc())
+            return
+    ctx.ok(construct, 'shoelace form for n = 3, 4, 5 symbolic vertices; invariant under rotation about any pivot')
+
+
 RULES = [
     RuleDef('R1', 'PixCoord.rotate is the rotation matrix about the pivot (isometry)', r1, 1),
     RuleDef('R2', 'region.rotate completeness for every concrete pixel class', r2, 12),
+    RuleDef('R3', 'whole-pixel translation: box moves by N, mask kernel inputs do not change', r3, 10),
+    RuleDef('R4', 'area does not depend on position or orientation (shoelace for polygons)', r4, 12),
 ]
